@@ -331,6 +331,9 @@ pub fn cmd_worker(args: &[String]) -> i32 {
     let deadline_ms: u64 = arg(args, "--deadline-ms").unwrap().parse().unwrap();
     let emit_runs = args.iter().any(|a| a == "--emit-runs");
     let samples: u64 = arg(args, "--samples").and_then(|s| s.parse().ok()).unwrap_or(0);
+    // adaptive runs: blocks are claimed from a shared counter, and only workers below the
+    // controller's limit are active
+    let ctl = arg(args, "--ctl").map(|p| crate::runner::Ctl::open(std::path::Path::new(p), false).expect("control block"));
     let t0 = Instant::now();
     let warmed = warm_for(&prop);
     let shm = Shm::new();
@@ -340,6 +343,16 @@ pub fn cmd_worker(args: &[String]) -> i32 {
     let mut runs_done = 0u64;
     let mut stopped_by_deadline = false;
     loop {
+        if let Some(c) = &ctl {
+            while wid >= c.limit() && (t0.elapsed().as_millis() as u64) <= deadline_ms && c.next_block() * b < total {
+                std::thread::sleep(Duration::from_millis(20));
+            }
+            if t0.elapsed().as_millis() as u64 > deadline_ms {
+                stopped_by_deadline = true;
+                break;
+            }
+            block = c.claim_block();
+        }
         let start = block * b;
         if start >= total {
             break;
